@@ -9,7 +9,8 @@ LoadState(j) == Derive([n |-> j.n, par |-> j.par, kids |-> j.kids, top |-> j.top
                         typed |-> j.typed])
 Say(cond, id, prop, clause, why) == cond \/ PrintT(<<"MISMATCH", id, prop, clause, why>>)
 CheckObs(D, rank, id, o) ==
-   LET why == o.q \o ":sort=" \o ToString(o.a.sort) exp == Scan(D, rank) IN
+   LET why == o.q \o ":sort=" \o ToString(o.a.sort) \o (IF "via" \in DOMAIN o.a THEN ":via=" \o o.a.via ELSE "")
+       exp == Scan(D, rank) IN
    /\ Say(o.r.s = "ok", id, "C19", o.q \o ".status:" \o o.r.s, why)
    /\ (o.r.s = "ok" =>
          /\ Say(NormSeq(o.r.v.tree) = exp, id, "C19", o.q \o ".entries", why)
